@@ -358,6 +358,31 @@ pub fn run(started: Instant) -> i32 {
             }
         }
         let hl = refstream::header_len(true, b.cfg.recipients);
+        // a fault in the (unauthenticated) header: ENCRYPT bit cleared, body replaced by an attacker's unencrypted
+        // one. Library level: recorded finding (same root cause as C03/downgrade); the mlar side is judged in C03.
+        {
+            let mut evil_p = Program::new(vec![Op::Add(0, 9)], Entropy::Pattern);
+            evil_p.names = vec!["evil".to_string()];
+            let evil_cfg = Cfg::lvl(if b.cfg.layers.compressed() { L4::Compress } else { L4::None }, 5);
+            if let Ok(Ok((evil, _))) = guard(|| prog::build(&evil_p, &evil_cfg)) {
+                let mut d = archive[..hl].to_vec();
+                d[7] &= !1u8;
+                d.extend_from_slice(&evil[9..]);
+                rep0.evaluations += 1;
+                rep0.transitions += 3;
+                if let RepairEval::Done(r) = sweep::repair_eval(&d, &[0], false) {
+                    rep0.class("header-downgrade/auth:done");
+                    if r.files.contains_key("evil") {
+                        rep0.violate(Violation {
+                            sig: json!({"kind": "downgraded_header_repaired_with_attacker_data", "layers": b.cfg.layers.tag()}),
+                            detail: format!("base {}: header with the ENCRYPT bit cleared + unencrypted body: authenticated-only repair with a recipient key configured writes the attacker's file", b.label),
+                            replay: json!({"downgrade": true, "input_hex": hex::encode(&d)}),
+                            weight: 0,
+                        });
+                    }
+                }
+            }
+        }
         let comp = comp_reference(b, &archive);
         if b.cfg.layers == L4::Both && comp.is_none() {
             rep0.notes.push(format!("base {}: independent decryption of the unaltered archive failed (see C06); upper bound skipped", b.label));
@@ -424,6 +449,16 @@ pub fn run(started: Instant) -> i32 {
 
 pub fn replay(path: &str) -> i32 {
     let v = super::load_replay(path);
+    if v["downgrade"].as_bool().unwrap_or(false) {
+        let bytes = hex::decode(v["input_hex"].as_str().unwrap_or("")).unwrap_or_default();
+        let bad = matches!(sweep::repair_eval(&bytes, &[0], false), RepairEval::Done(r) if r.files.contains_key("evil"));
+        println!("replay: authenticated-only repair of the downgraded archive writes the attacker's file: {bad}");
+        if bad {
+            println!("VIOLATION property=C04 replay={path}");
+            return 1;
+        }
+        return 0;
+    }
     if v["cli"].as_bool().unwrap_or(false) {
         let bytes = hex::decode(v["input_hex"].as_str().unwrap_or("")).unwrap_or_default();
         let scratch = crate::cli::Scratch::new("c04cli");
